@@ -199,6 +199,19 @@ fn exec(problem: &P, state: &mut State<'static, P>, a: &Value, k: usize) -> Valu
             }
         }
         "update_best" => comp(problem, state, BestIndividualUpdate::new()),
+        "init_run" => {
+            // what the init phase of a configuration holding these components does at the start of a run
+            let res = caught(|| -> ExecResult<()> {
+                PopulationEvaluator::new::<P>().init(problem, state)?;
+                BestIndividualUpdate::new::<P>().init(problem, state)?;
+                ElitistArchiveUpdate::new::<P>(k).init(problem, state)
+            });
+            match res {
+                Ok(Ok(())) => r("ok", 0),
+                Ok(Err(_)) => r("err", 0),
+                Err(_) => r("panic", 0),
+            }
+        }
         "archive_update" => comp(problem, state, ElitistArchiveUpdate::new(k)),
         "archive_into_population" => comp(problem, state, ElitistArchiveIntoPopulation::new()),
         other => panic!("unknown op {other}"),
@@ -296,7 +309,8 @@ pub fn main(args: &Args) -> usize {
                             63..=74 => act("evaluate", 0, rng.gen_range(0..2)),
                             75 => act("evaluate_missing", 0, rng.gen_range(0..5)),
                             76 => act("evaluate_nested", 0, rng.gen_range(1..4)),
-                            77..=86 if all_eval => act("update_best", 0, 0),
+                            77..=85 if all_eval => act("update_best", 0, 0),
+                            86 => act("init_run", 0, 0),
                             87..=94 if all_eval => act("archive_update", 0, 0),
                             95..=99 if n + narch < 14 => act("archive_into_population", 0, 0),
                             _ => continue,
